@@ -22,15 +22,16 @@ V_ENSURES(!__CPROVER_return_value || V_OLD(zck->error_state) == 0) /*@C03.comp_i
 
 /* ---- reader side ------------------------------------------------------------------------- */
 /* decoder buffer invariant */
-#define DC_WF(c) ((c)->dc_data_loc <= (c)->dc_data_size && ((c)->dc_data_size == 0 || ((c)->dc_data != NULL && __CPROVER_rw_ok((c)->dc_data, (c)->dc_data_size))))
+#define DC_WF(c) ((c)->dc_data_loc <= (c)->dc_data_size && ((c)->dc_data == NULL ? (c)->dc_data_size == 0 : __CPROVER_rw_ok((c)->dc_data, (c)->dc_data_size)))
 
 /* assumed contract of a codec's end-of-chunk hook (zstd: proved against this in units/zstd.c with
  * the ZSTD_* calls by contract; nocomp: units/nocomp.c).  It may append decoded bytes to dc_data. */
 bool verif_end_dchunk(zckCtx *zck, zckComp *comp, const bool use_dict, const size_t fd_size)
 V_REQUIRES(__CPROVER_rw_ok(zck, sizeof(*zck)) && comp == &zck->comp)
 V_ASSIGNS(zck->comp.data, zck->comp.data_size, zck->comp.dc_data, zck->comp.dc_data_size, zck->comp.dc_data_loc, zck->error_state)
-V_FREES(zck->comp.data, zck->comp.dc_data)
-V_ENSURES(zck->comp.dc_data_size == 0 || __CPROVER_is_fresh(zck->comp.dc_data, zck->comp.dc_data_size))
+/* (the stand-in does not free the old buffers: a leak in the model only; the real hooks' own units check their frees) */
+V_ENSURES(zck->comp.dc_data == NULL || __CPROVER_is_fresh(zck->comp.dc_data, zck->comp.dc_data_size))
+V_ENSURES(zck->comp.dc_data != NULL || zck->comp.dc_data_size == 0)
 V_ENSURES(zck->comp.dc_data_loc <= zck->comp.dc_data_size)
 V_ENSURES(__CPROVER_return_value || V_OLD(zck->error_state) > 0 || zck->error_state >= 0)
 ;
@@ -46,10 +47,10 @@ V_REQUIRES(zck->comp.data_idx->next == NULL || __CPROVER_rw_ok(zck->comp.data_id
 V_REQUIRES(CHUNK_HASH_WF(zck) && g_hu_hash == &zck->check_chunk_hash)
 V_REQUIRES(zck->comp.end_dchunk == verif_end_dchunk)
 V_ASSIGNS(zck->comp.data, zck->comp.data_size, zck->comp.dc_data, zck->comp.dc_data_size, zck->comp.dc_data_loc, zck->comp.data_loc, zck->comp.data_idx, zck->comp.data_idx->valid, zck->check_chunk_hash.type, zck->check_chunk_hash.ctx, zck->error_state, g_hu_total, g_hu_seen, g_hu_ptr, g_hu_final, g_hu_inits, g_fin_val, g_fin_total, g_fin_seen, g_fin_ptr)
-V_FREES(zck->comp.data, zck->comp.dc_data, zck->check_chunk_hash.ctx)
+V_FREES(zck->comp.dc_data, zck->check_chunk_hash.ctx)
 V_ENSURES(__CPROVER_return_value < 1 || (g_hu_final == V_OLD(g_hu_final) + 1 && g_fin_total == V_OLD(g_hu_total) && g_fin_seen == V_OLD(g_hu_seen))) /*@C15,C02.comp_end_dchunk.accepted_only_after_the_chunk_hash_was_finalised_over_all_its_bytes*/
 V_ENSURES(__CPROVER_return_value < 1 || V_OLD(zck->comp.data_idx)->comp_length == 0 || !(g_k1 < (size_t)V_OLD(zck->comp.data_idx)->digest_size) || g_fin_val == V_OLD(zck->comp.data_idx)->digest[g_k1]) /*@C15,C02.comp_end_dchunk.accepted_only_if_every_digest_byte_equal*/
-V_ENSURES(__CPROVER_return_value >= 1 || zck->error_state == 2) /*@C15,C02.comp_end_dchunk.rejected_chunk_leaves_sticky_error*/
+V_ENSURES(__CPROVER_return_value >= 1 || zck->error_state == 2 || ((V_OLD(zck->error_state) > 0 || zck->mode != ZCK_MODE_READ) && zck->error_state > 0)) /*@C15,C02.comp_end_dchunk.rejected_chunk_leaves_sticky_error*/
 V_ENSURES(__CPROVER_return_value < 1 || (zck->comp.data_idx == V_OLD(zck->comp.data_idx)->next && zck->comp.data_loc == 0 && zck->check_chunk_hash.ctx != NULL && zck->check_chunk_hash.type == &zck->chunk_hash_type)) /*@C02,C14.comp_end_dchunk.advances_to_next_chunk_with_fresh_hash*/
 V_ENSURES(__CPROVER_return_value < 1 || V_OLD(zck->error_state) == 0) /*@C12.comp_end_dchunk.never_succeeds_on_a_context_in_error*/
 V_ENSURES(zck->comp.dc_data_loc <= zck->comp.dc_data_size) /*@C03.comp_end_dchunk.dc_buffer_cursor_inside*/
